@@ -1,11 +1,207 @@
 import DryocVerif.Model.Curve
+import DryocVerif.Model.CurveInst
 import DryocVerif.Model.Sign
-namespace DryocVerif.Properties.C13
-open DryocVerif
+import DryocVerif.Spec.X25519
+import DryocVerif.Spec.Ed25519
+import DryocVerif.Proofs.Curve
+import DryocVerif.Properties.C05
+/-
+C13 — deterministic key pairs and the Ed25519 → Curve25519 conversion
+(/repo/src/classic/crypto_box_impl.rs, crypto_kx.rs, crypto_sign_ed25519.rs, keypair.rs).
 
-/-- key derivation rejects exactly the lengths outside 16..=64 -/
-theorem kdf_err_iff (P : Model.Curve.Prims) (len id : Nat) (ctx key : Bytes) :
-    Model.Curve.kdfDerive P len id ctx key = .err ↔ len < 16 ∨ 64 < len := by
-  unfold Model.Curve.kdfDerive; split <;> simp_all
+* `crypto_box_seed_keypair`: sk = SHA-512(seed)[0..32], pk = X25519(sk, 9), any seed length;
+* `crypto_kx_seed_keypair`: sk = BLAKE2b-256(seed), pk = X25519(sk, 9);
+* `crypto_sign_seed_keypair`: sk = seed ‖ pk, pk = encode([a mod L]B), a = clamp(SHA-512(seed)[0..32]);
+* `crypto_sign_ed25519_sk_to_curve25519` returns exactly the clamped scalar the signing key
+  pair was derived from (so the converted pair is a pair), and equals libsodium's function;
+* `converted_pair_consistent`: the converted public key is the X25519 public key of the
+  converted secret key, *given* that the birational map commutes with scalar multiplication
+  (a property of the curve arithmetic, stated as a hypothesis and checked on an instance).
+-/
+namespace DryocVerif.Properties.C13
+open DryocVerif DryocVerif.Model.Curve
+
+/-! ### `crypto_box_seed_keypair` -/
+
+/-- public key = base-point multiple of the secret key, whatever the primitives -/
+theorem boxSeedKeypair_pk (P : Prims) (seed : Bytes) :
+    (boxSeedKeypair P seed).1 = scalarmultBase P (boxSeedKeypair P seed).2 := rfl
+
+theorem boxSeedKeypair_sk (P : Prims) (seed : Bytes) :
+    (boxSeedKeypair P seed).2 = (P.sha512 seed).take 32 := rfl
+
+/-- NaCl/libsodium `crypto_box_seed_keypair`, for a seed of any length:
+sk = first half of SHA-512(seed), pk = X25519(sk, 9) -/
+theorem boxSeedKeypair_spec (seed : Bytes) :
+    boxSeedKeypair specPrims seed =
+      (Spec.X25519.x25519Base ((Spec.Sha512.sha512 seed).take 32), (Spec.Sha512.sha512 seed).take 32) := by
+  have h : ((Spec.Sha512.sha512 seed).take 32).length ≤ 32 := List.length_take_le _ _
+  rw [← C05.scalarmultBase_eq_of_le _ h]; rfl
+
+/-- the secret key has 32 bytes (SHA-512 digests have 64, proved for the executable spec) -/
+theorem boxSeedKeypair_sk_length (seed : Bytes) : (boxSeedKeypair specPrims seed).2.length = 32 := by
+  rw [boxSeedKeypair_sk]
+  simp only [specPrims, List.length_take, Proofs.Curve.sha512_length]; rfl
+
+/-! ### `crypto_kx_seed_keypair` -/
+
+theorem kxSeedKeypair_pk (P : Prims) (seed : Bytes) :
+    (kxSeedKeypair P seed).1 = scalarmultBase P (kxSeedKeypair P seed).2 := rfl
+
+/-- libsodium `crypto_kx_seed_keypair`: sk = BLAKE2b-256(seed) (unkeyed), pk = X25519(sk, 9) -/
+theorem kxSeedKeypair_spec (seed : Bytes) :
+    kxSeedKeypair specPrims seed =
+      (Spec.X25519.x25519Base (Spec.Blake2b.hash 32 [] seed), Spec.Blake2b.hash 32 [] seed) := by
+  have h : (Spec.Blake2b.hash 32 [] seed).length ≤ 32 := by
+    unfold Spec.Blake2b.hash Spec.Blake2b.hashSP; exact List.length_take_le _ _
+  rw [← C05.scalarmultBase_eq_of_le _ h]; rfl
+
+/-! ### `crypto_sign_seed_keypair` -/
+
+/-- the secret scalar of a signing key pair: clamped first half of the hash, reduced mod L -/
+def signScalar (H : Bytes → Bytes) (seed : Bytes) : Nat :=
+  le (Model.Sign.clampHash (H seed)) % Spec.Ed25519.L
+
+theorem sign_seedKeypair_pk (H : Bytes → Bytes) (seed : Bytes) :
+    (Model.Sign.seedKeypair H seed).1 =
+      Spec.Ed25519.encodePoint (Spec.Ed25519.scalarMul (signScalar H seed) Spec.Ed25519.B) := rfl
+
+/-- secret-key layout: seed ‖ public key -/
+theorem sign_seedKeypair_layout (H : Bytes → Bytes) (seed : Bytes) :
+    (Model.Sign.seedKeypair H seed).2 = seed ++ (Model.Sign.seedKeypair H seed).1 := rfl
+
+/-- … so the seed is recovered as the first 32 bytes, and the public key as the rest -/
+theorem sign_seedKeypair_take (H : Bytes → Bytes) (seed : Bytes) (h : seed.length = 32) :
+    (Model.Sign.seedKeypair H seed).2.take 32 = seed ∧
+    (Model.Sign.seedKeypair H seed).2.drop 32 = (Model.Sign.seedKeypair H seed).1 := by
+  rw [sign_seedKeypair_layout]
+  constructor
+  · rw [List.take_append_of_le_length (by omega), List.take_of_length_le (by omega)]
+  · rw [List.drop_append_of_le_length (by omega), List.drop_of_length_le (by omega)]; rfl
+
+/-- `encodePoint` always yields 32 bytes, so the key pair is (32, 64) bytes -/
+theorem sign_seedKeypair_lengths (H : Bytes → Bytes) (seed : Bytes) (h : seed.length = 32) :
+    (Model.Sign.seedKeypair H seed).1.length = 32 ∧ (Model.Sign.seedKeypair H seed).2.length = 64 := by
+  have h1 : (Model.Sign.seedKeypair H seed).1.length = 32 := by
+    rw [sign_seedKeypair_pk]; exact Proofs.Curve.toLE_length _ _
+  refine ⟨h1, ?_⟩
+  rw [sign_seedKeypair_layout, List.length_append, h1, h]
+
+/-! ### `crypto_sign_ed25519_sk_to_curve25519` -/
+
+/-- the converted secret key is the clamped first half of H(sk[0..32]) -/
+theorem skToCurve_unfold (H : Bytes → Bytes) (sk : Bytes) :
+    Model.Sign.skToCurve H sk = clamp ((H (sk.take 32)).take 32) := rfl
+
+/-- The X25519 secret key obtained from an Ed25519 secret key is (modulo L) exactly the
+secret scalar of the Ed25519 key pair derived from the same seed `sk[0..32]`. -/
+theorem sk_to_curve_is_sign_scalar (H : Bytes → Bytes) (sk : Bytes) :
+    le (Model.Sign.skToCurve H sk) % Spec.Ed25519.L = signScalar H (sk.take 32) := rfl
+
+/-- for a secret key produced by `seedKeypair` -/
+theorem sk_to_curve_of_seedKeypair (H : Bytes → Bytes) (seed : Bytes) (h : seed.length = 32) :
+    Model.Sign.skToCurve H (Model.Sign.seedKeypair H seed).2 = Model.Sign.clampHash (H seed) ∧
+    (Model.Sign.seedKeypair H seed).1 =
+      Spec.Ed25519.encodePoint (Spec.Ed25519.scalarMul
+        (le (Model.Sign.skToCurve H (Model.Sign.seedKeypair H seed).2) % Spec.Ed25519.L)
+        Spec.Ed25519.B) := by
+  have e : Model.Sign.skToCurve H (Model.Sign.seedKeypair H seed).2 = Model.Sign.clampHash (H seed) := by
+    unfold Model.Sign.skToCurve; rw [(sign_seedKeypair_take H seed h).1]
+  exact ⟨e, by rw [e]; rfl⟩
+
+/-- agreement with the libsodium specification, for secret keys of any length -/
+theorem skToCurve_eq_spec (sk : Bytes) :
+    Model.Sign.skToCurve Spec.Sha512.sha512 sk = Spec.Ed25519.skToCurve sk := by
+  rw [skToCurve_unfold, Spec.Ed25519.skToCurve]
+  exact C05.clamp_eq_spec_of_le _ (List.length_take_le _ _)
+
+/-- the converted key is a 32-byte, already clamped X25519 scalar -/
+theorem skToCurve_clamped (H : Bytes → Bytes) (sk : Bytes) (hH : 32 ≤ (H (sk.take 32)).length) :
+    (Model.Sign.skToCurve H sk).length = 32 ∧
+    clamp (Model.Sign.skToCurve H sk) = Model.Sign.skToCurve H sk ∧
+    2 ^ 254 ≤ le (Model.Sign.skToCurve H sk) ∧ le (Model.Sign.skToCurve H sk) < 2 ^ 255 ∧
+    8 ∣ le (Model.Sign.skToCurve H sk) := by
+  have hl : ((H (sk.take 32)).take 32).length = 32 := by simp; omega
+  refine ⟨?_, ?_, ?_⟩
+  · exact Proofs.Curve.clampHash_length _ hH
+  · exact Proofs.Curve.clampHash_clamped _
+  · rw [skToCurve_unfold]; exact C05.clamp_range _ hl
+
+theorem skToCurve_sha512_length (sk : Bytes) : (Model.Sign.skToCurve Spec.Sha512.sha512 sk).length = 32 :=
+  (skToCurve_clamped _ sk (by rw [Proofs.Curve.sha512_length]; decide)).1
+
+/-- using the converted key for X25519 clamps it once more, harmlessly -/
+theorem scalarmult_skToCurve (P : Prims) (H : Bytes → Bytes) (sk p : Bytes) :
+    scalarmult P (Model.Sign.skToCurve H sk) p = P.ladder (Model.Sign.skToCurve H sk) p := by
+  rw [scalarmult, Model.Sign.skToCurve, Proofs.Curve.clampHash_clamped]
+
+/-! ### consistency of the converted pair -/
+
+/-- the curve-arithmetic fact the conversion relies on, for one clamped scalar `s`:
+encoding `[s mod L]B`, decoding it leniently and applying the birational map
+u = (1+y)/(1−y) gives the Montgomery-ladder result for `s` on the base point 9.
+(It combines: decode ∘ encode = id on the curve, `[L]B = 0`, and the map being a group
+homomorphism — none of which is provable without the group law.) -/
+def MapCommutes (P : Prims) (s : Bytes) : Prop :=
+  Model.Sign.pkToCurve
+      (Spec.Ed25519.encodePoint (Spec.Ed25519.scalarMul (le s % Spec.Ed25519.L) Spec.Ed25519.B)) =
+    .ok (P.ladder s P.base)
+
+/-- If the birational map commutes with scalar multiplication on clamped 32-byte scalars,
+then converting both halves of a signing key pair gives a consistent X25519 pair:
+`pk_to_curve(pk) = scalarmult_base(sk_to_curve(sk))`.
+What the model contributes: both conversions start from the same hash of the same 32 bytes,
+the scalar of the signing key is that clamped value mod L, and the second clamp inside
+`scalarmult_base` is the identity. -/
+theorem converted_pair_consistent (P : Prims) (H : Bytes → Bytes) (seed : Bytes)
+    (hseed : seed.length = 32) (hH : 32 ≤ (H seed).length)
+    (hmap : ∀ s : Bytes, s.length = 32 → clamp s = s → MapCommutes P s) :
+    Model.Sign.pkToCurve (Model.Sign.seedKeypair H seed).1 =
+      .ok (scalarmultBase P (Model.Sign.skToCurve H (Model.Sign.seedKeypair H seed).2)) := by
+  obtain ⟨e, -⟩ := sk_to_curve_of_seedKeypair H seed hseed
+  rw [e, scalarmultBase, Proofs.Curve.clampHash_clamped]
+  exact hmap _ (Proofs.Curve.clampHash_length _ hH) (Proofs.Curve.clampHash_clamped _)
+
+/-- with SHA-512 the length hypothesis is discharged -/
+theorem converted_pair_consistent_sha512 (P : Prims) (seed : Bytes) (hseed : seed.length = 32)
+    (hmap : ∀ s : Bytes, s.length = 32 → clamp s = s → MapCommutes P s) :
+    Model.Sign.pkToCurve (Model.Sign.seedKeypair Spec.Sha512.sha512 seed).1 =
+      .ok (scalarmultBase P (Model.Sign.skToCurve Spec.Sha512.sha512
+        (Model.Sign.seedKeypair Spec.Sha512.sha512 seed).2)) :=
+  converted_pair_consistent P _ seed hseed (by rw [Proofs.Curve.sha512_length]; decide) hmap
+
+/-! ### non-vacuity -/
+
+/-- the hypothesis `MapCommutes` holds on instances of the spec instantiation (kernel
+evaluation of 256 Edwards additions, a square root, and the ladder) -/
+example : MapCommutes specPrims (clamp (zeros 32)) := by
+  unfold MapCommutes
+  set_option maxRecDepth 1000000 in decide
+
+example : MapCommutes specPrims (clamp (List.replicate 32 255)) := by
+  unfold MapCommutes
+  set_option maxRecDepth 1000000 in decide
+
+/-- end to end on one key pair with the real SHA-512: the conclusion of
+`converted_pair_consistent` holds for the seed 0³² (kernel evaluation, ≈ 10 s) -/
+example :
+    Model.Sign.pkToCurve (Model.Sign.seedKeypair Spec.Sha512.sha512 (zeros 32)).1 =
+      .ok (scalarmultBase specPrims (Model.Sign.skToCurve Spec.Sha512.sha512
+        (Model.Sign.seedKeypair Spec.Sha512.sha512 (zeros 32)).2)) := by
+  set_option maxRecDepth 1000000 in decide
+
+/-- the signing key pair of the seed 0³² agrees with RFC 8032 key generation (the model
+reduces the scalar mod L before the multiplication, the RFC does not; equality in general
+needs `[L]B = 0`, i.e. the group law, and is checked differentially) -/
+example :
+    Model.Sign.seedKeypair Spec.Sha512.sha512 (zeros 32) =
+      (Spec.Ed25519.publicKey (zeros 32), zeros 32 ++ Spec.Ed25519.publicKey (zeros 32)) := by
+  set_option maxRecDepth 1000000 in decide
+
+/-- the box key pair of a (hypothetical) hash returning zeros: pk = X25519(0…0, 9) -/
+example :
+    boxSeedKeypair { specPrims with sha512 := fun _ => zeros 64 } [1, 2, 3] =
+      (Spec.X25519.x25519Base (zeros 32), zeros 32) := by
+  set_option maxRecDepth 100000 in decide
 
 end DryocVerif.Properties.C13
